@@ -301,12 +301,15 @@ int16_t CONmtHbConsCheck(CO_NMT *nmt, CO_IF_FRM *frm)
             if (hbc->Tmr < 0) {
                 nmt->Node->Error = CO_ERR_TMR_CREATE;
             }
-            state = CONmtModeDecode(frm->Data[0]);
+            state  = CONmtModeDecode(frm->Data[0]);
+            result = (int16_t)hbc->NodeId;
             if (hbc->State != state) {
-                CONmtHbConsChange(nmt, hbc->NodeId, state);
+                /* the new state is stored when the application is informed:
+                 * the callback is free to re-configure this consumer
+                 */
+                hbc->State = state;
+                CONmtHbConsChange(nmt, nodeid, state);
             }
-            hbc->State = state;
-            result     = (int16_t)hbc->NodeId;
             break;
         }
     }
